@@ -51,7 +51,11 @@ TEMPLATES = (
     # the reporting token is the string produced by the # operator (its location is that of the invocation)
     ('parse/stringized', ('int Q(x%d);',), 0, 'base'),
     ('parse/stringized-in-invocation', ('int Q(x%d +', 'y', ');'), 2, 'inside'),
-    # lexical errors detected at the end of the line (the offending token is the unterminated literal)
+    # the reporting token comes from the replacement list of a macro that was defined twice, identically, on different lines: its
+    # location is that of the definition in force, the second one (seeded round 10: an identical redefinition kept the first macro)
+    ('parse/in-redefined-macro-body', ('#define RB%d(x) x ]', '#define RB%d(x) x ]', 'int v%d = RB%d(1);'), 1, 'base'),
+    ('parse/in-redefined-object-macro-body', ('#define RO%d 1 ]', '', '#define RO%d 1 ]', 'int w%d = RO%d;'), 2, 'base'),
+    ('parse/in-macro-body', ('#define RC%d(x) x ]', 'int u%d = RC%d(1);'), 0, 'base'),
     ('unterminated-string', ('char *x%d = "abc',), 0, 'eol'),
     ('unterminated-charconst', ("int x%d = 'a",), 0, 'eol'),
 )
@@ -170,6 +174,7 @@ def lost_newlines(text, lines, recs, at):
 # identifiers carrying its number, so every error line names the program it belongs to
 
 _werr = re.compile(r'^(.+?):(\d+):(?:\d+:)? (?:fatal )?error', re.M)
+_wnote = re.compile(r'^(.+?):(\d+):(?:\d+:)? note: expanded from macro')
 
 
 def w_cmd(tool):
@@ -191,7 +196,23 @@ def w_batch(tool, progs):
         parts.append(b'#line 1 "P_%d"\n' % (k + 1) + text)
     err = w_run(tool, b''.join(parts))
     first = {}
-    for m in _werr.finditer(err):
+    spelled = {k + 1 for k, p in enumerate(progs) if 'macro-body' in p[2]}
+    pend = None
+    for line in err.split('\n'):
+        m = _werr.match(line)
+        n = _wnote.match(line) if pend else None
+        if n:
+            # clang puts a token that comes from a replacement list at the point of expansion and names its spelling location in a
+            # note; gcc and cproc report the spelling location itself: for the macro-body templates the note is clang's answer
+            f, l = n.group(1), int(n.group(2))
+            mm = re.search(r'_(\d+)(?:\.[ch])?$', f)
+            if mm and int(mm.group(1)) == pend:
+                first[pend] = ('<stdin>' if f.startswith('P_') else f.replace('_%d' % pend, ''), l)
+            pend = None
+            continue
+        pend = None
+        if not m:
+            continue
         f, l = m.group(1), int(m.group(2))
         mm = re.search(r'_(\d+)(?:\.[ch])?$', f)
         if not mm:
@@ -200,6 +221,8 @@ def w_batch(tool, progs):
         if k not in first:
             canon = '<stdin>' if f.startswith('P_') else f.replace('_%d' % k, '')
             first[k] = (canon, l)
+            if k in spelled and tool == 'clang':
+                pend = k
     return [first.get(k + 1) for k in range(len(progs))]
 
 
@@ -207,6 +230,10 @@ def w_single(tool, prog):
     text, _, _ = build(*prog)
     err = w_run(tool, text)
     m = _werr.search(err)
+    if m and tool == 'clang' and 'macro-body' in prog[2]:
+        n = _wnote.match(err[m.end():].split('\n', 1)[1] if '\n' in err[m.end():] else '')
+        if n:
+            return (n.group(1), int(n.group(2)))
     return (m.group(1), int(m.group(2))) if m else None
 
 
